@@ -73,18 +73,28 @@ func NewZSetMember(score float64, data string) *ZSetMember {
 func (zset *ZSet) Add(nms []*ZSetMember, opt ZAddOption) int {
 	addedMemberCount := 0
 	for _, nm := range nms {
+		// A member is stored once: re-adding an existing member replaces its score.
+		isNewMember := true
+		for n, tm := range zset.members {
+			if tm.Member == nm.Member {
+				zset.members = append(zset.members[:n], zset.members[n+1:]...)
+				isNewMember = false
+				break
+			}
+		}
 		isAdded := false
 		for n, tm := range zset.members {
 			if nm.Score < tm.Score {
 				zset.members = append(zset.members[:n+1], zset.members[n:]...)
 				zset.members[n] = nm
 				isAdded = true
-				addedMemberCount++
 				break
 			}
 		}
 		if !isAdded {
 			zset.members = append(zset.members, nm)
+		}
+		if isNewMember {
 			addedMemberCount++
 		}
 	}
